@@ -24,7 +24,7 @@ ASSUMPTIONS = ['only index and value forms used by upstream tests/docstrings are
                'reads that leave every selected row non-empty',
                'row reads are views by design, so write-through is exercised on a row fetched after the last structural change',
                'values keep the dtype of the array (no float written into an integer array)']
-REACH_EXPECTED = ['construct_from_2d_block', 'row_assign_wider_dtype', 'introw_general_slice', 'op_rowslice_col', 'out_of_row_write_rejected', 'op_elem', 'op_row_same', 'op_row_newlen', 'op_introw_slice', 'op_slice2d', 'op_fancy', 'op_fancy_int', 'op_mask',
+REACH_EXPECTED = ['op_compare_lt', 'op_compare_ne', 'op_truediv', 'op_floordiv', 'op_mod', 'op_pow', 'op_mod_reflected', 'op_bitwise', 'op_reads2d', 'op_writes2d', 'op_helpers', 'construct_from_2d_block', 'row_assign_wider_dtype', 'introw_general_slice', 'op_rowslice_col', 'out_of_row_write_rejected', 'op_elem', 'op_row_same', 'op_row_newlen', 'op_introw_slice', 'op_slice2d', 'op_fancy', 'op_fancy_int', 'op_mask',
                   'op_mask_empty', 'op_rowblock', 'op_append_rows', 'op_append_ra', 'op_aug_scalar', 'op_aug_ragged', 'op_binary',
                   'env_source_mutated', 'env_lengths_mutated', 'env_result_mutated', 'env_write_through', 'env_selection_mutated', 'rect_to_ragged', 'ragged_to_rect', 'multidim_elements',
                   'out_of_row_rejected']
@@ -223,7 +223,7 @@ class Machine:
         lens = [len(r) for r in rows]
         was_rect = len(set(lens)) == 1
         ops1d = ('elem', 'row_same', 'row_newlen', 'introw_slice', 'slice2d', 'rowslice_col', 'fancy', 'fancy_int', 'mask', 'rowblock', 'append',
-                 'aug', 'binary', 'write_through', 'elem', 'row_same', 'child_write')
+                 'aug', 'binary', 'write_through', 'elem', 'row_same', 'child_write', 'compare', 'divlike', 'bitwise', 'reads2d', 'writes2d', 'helpers')
         opsnd = ('row_same', 'row_newlen', 'append', 'aug', 'binary', 'rowblock')
         op = t.choice(ops1d if self.edim is None else opsnd)
         a = self.a
@@ -460,6 +460,144 @@ class Machine:
                 i = t.draw(n)
                 res[i][0] = V.take(()) if self.edim is None else V.take((self.edim,))
                 self.ctx.hit('env_result_mutated')
+        elif op == 'compare':
+            # every comparison operator, against a scalar or another array of the same structure
+            import operator as O
+            name = t.choice(('lt', 'le', 'gt', 'ge', 'eq', 'ne'))
+            f = getattr(O, name)
+            ragged = t.flag(1, 3)
+            flat = np.concatenate(rows)
+            if ragged:
+                orows = [r.copy() for r in rows]
+                for r in orows:
+                    r[t.draw(len(r))] += 1          # equal in some places, different in others
+                other = self.sut(self.ra.RaggedArray, np.concatenate(orows), lengths=[len(r) for r in rows])
+            else:
+                other = flat[t.draw(len(flat))].item()
+            self.hist.append(('compare', name, 'ragged' if ragged else 'scalar'))
+            before = [r.copy() for r in rows]
+            res = self.sut(f, a, other)
+            self.cmp_rows(res, [f(r, orows[i] if ragged else other) for i, r in enumerate(before)], 'a %s other' % name)
+            if np.asarray(res[0]).dtype != np.bool_:
+                self.bad('comparison_differs', 'a %s other has element type %s' % (name, np.asarray(res[0]).dtype))
+            if bool(res.any()) != bool(np.any(f(flat, np.concatenate(orows) if ragged else other))):
+                self.bad('reduction_differs', 'any() of a %s other' % name)
+            self.ctx.hit('op_compare_' + name)
+        elif op == 'divlike':
+            # division-like and power operators; the divisor is never zero (that is numpy's business, not the container's)
+            import operator as O
+            name = t.choice(('truediv', 'floordiv', 'mod', 'pow'))
+            f = getattr(O, name)
+            flat = np.concatenate(rows)
+            reflected = t.flag(1, 3) and bool(np.all(flat != 0)) and (name != 'pow' or self.dtype != 'int64' or bool(np.all(flat >= 0)))
+            ragged = t.flag(1, 3) and not reflected and name != 'pow'
+            if ragged:
+                orows = [V.take(r.shape) for r in rows]
+                other = self.sut(self.ra.RaggedArray, np.concatenate(orows), lengths=[len(r) for r in rows])
+            else:
+                other = 2 if name == 'pow' else (V.take(()).item() if not reflected else 7)
+            self.hist.append(('divlike', name, 'reflected' if reflected else ('ragged' if ragged else 'scalar')))
+            before = [r.copy() for r in rows]
+            with np.errstate(all='ignore'):
+                res = self.sut(f, other, a) if reflected else self.sut(f, a, other)
+                want = [f(other, r) if reflected else f(r, orows[i] if ragged else other) for i, r in enumerate(before)]
+            if res is a:
+                self.bad('operator_returned_operand', '%s returned its operand object' % name)
+            self.cmp_rows(res, want, ('other %s a' if reflected else 'a %s other') % name)
+            if np.asarray(res[0]).dtype != want[0].dtype:
+                self.bad('dtype_changed', '%s: element type %s, model %s' % (name, np.asarray(res[0]).dtype, want[0].dtype))
+            for i, r in enumerate(before):
+                if not eqv(a[i], r):
+                    self.bad('operand_modified', '%s changed row %d of its operand' % (name, i))
+            self.ctx.hit('op_' + name + ('_reflected' if reflected else ''))
+        elif op == 'bitwise':
+            import operator as O
+            name = t.choice(('and_', 'or_', 'xor'))
+            f = getattr(O, name)
+            flat = np.concatenate(rows)
+            if self.dtype == 'int64' and t.flag():
+                other = t.irange(1, 7)
+                self.hist.append(('bitwise', name, 'int', other))
+                res = self.sut(f, a, other)
+                self.cmp_rows(res, [f(r, other) for r in rows], 'a %s %d' % (name, other))
+            else:
+                t1, t2 = flat[t.draw(len(flat))], flat[t.draw(len(flat))]
+                self.hist.append(('bitwise', name, 'masks'))
+                m1, m2 = self.sut(O.gt, a, t1), self.sut(O.le, a, t2)
+                res = self.sut(f, m1, m2)
+                self.cmp_rows(res, [f(r > t1, r <= t2) for r in rows], '(a > x) %s (a <= y)' % name)
+                self.cmp_rows(m1, [r > t1 for r in rows], 'mask operand after %s' % name)
+            self.ctx.hit('op_bitwise')
+        elif op == 'reads2d':
+            # two-index reads that mix a row selection with a column selection
+            kind = t.draw(3)
+            lo = t.draw(n)
+            hi = t.irange(lo + 1, n)
+            if kind == 0:
+                sel = list(range(lo, hi))
+                j = t.draw(min(lens[i] for i in sel))
+                self.hist.append(('reads2d', 'rowslice,int', lo, hi, j))
+                got = self.sut(a.__getitem__, (slice(lo, hi), j))
+                self.cmp_rows(got, [rows[i][[j]] for i in sel], 'a[%d:%d, %d]' % (lo, hi, j))
+            elif kind == 1:
+                sel = list(range(lo, hi))
+                m = min(lens[i] for i in sel)
+                cols = [t.draw(m) for _ in range(t.irange(1, 3))]
+                self.hist.append(('reads2d', 'rowslice,list', lo, hi, cols))
+                got = self.sut(a.__getitem__, (slice(lo, hi), cols if t.flag() else np.array(cols)))
+                self.cmp_rows(got, [rows[i][cols] for i in sel], 'a[%d:%d, %s]' % (lo, hi, cols))
+            else:
+                sel = [t.draw(n) for _ in range(t.irange(1, 3))]
+                m = min(lens[i] for i in sel)
+                c0 = t.draw(m)
+                c1 = t.irange(c0 + 1, m)
+                self.hist.append(('reads2d', 'list,slice', sel, c0, c1))
+                got = self.sut(a.__getitem__, (sel if t.flag() else np.array(sel), slice(c0, c1)))
+                self.cmp_rows(got, [rows[i][c0:c1] for i in sel], 'a[%s, %d:%d]' % (sel, c0, c1))
+            self.ctx.hit('op_reads2d')
+        elif op == 'writes2d':
+            kind = t.draw(2)
+            if kind == 0:
+                lo = t.draw(n)
+                hi = t.irange(lo + 1, n)
+                sel = list(range(lo, hi))
+                m = min(lens[i] for i in sel)
+                cols = sorted({t.draw(m) for _ in range(t.irange(1, 3))})
+                scalar = t.flag()
+                v = V.take(()) if scalar else V.take((len(sel), len(cols)))
+                self.hist.append(('writes2d', 'rowslice,list', lo, hi, cols, scalar))
+                self.sut(a.__setitem__, (slice(lo, hi), cols), v if scalar else [list(x) for x in v])
+                for k2, i in enumerate(sel):
+                    rows[i][cols] = v if scalar else v[k2]
+            else:
+                sel = sorted({t.draw(n) for _ in range(t.irange(1, 3))})
+                m = min(lens[i] for i in sel)
+                c0 = t.draw(m)
+                c1 = t.irange(c0 + 1, m)
+                scalar = t.flag()
+                v = V.take(()) if scalar else V.take((len(sel), c1 - c0))
+                self.hist.append(('writes2d', 'list,slice', sel, c0, c1, scalar))
+                self.sut(a.__setitem__, (sel, slice(c0, c1)), v if scalar else [list(x) for x in v])
+                for k2, i in enumerate(sel):
+                    rows[i][c0:c1] = v if scalar else v[k2]
+            self.ctx.hit('op_writes2d')
+        elif op == 'helpers':
+            z = self.sut(self.ra.zeros_like, a)
+            self.cmp_rows(z, [np.zeros_like(r) for r in rows], 'zeros_like(a)')
+            if np.asarray(z[0]).dtype != rows[0].dtype:
+                self.bad('dtype_changed', 'zeros_like: %s for %s' % (np.asarray(z[0]).dtype, rows[0].dtype))
+            z[0][0] = V.take(())                  # the caller fills it in: a must not notice
+            flat = np.concatenate(rows)
+            thr = flat[t.draw(len(flat))]
+            wr, wc = self.sut(self.ra.where, self.sut(a.__gt__, thr))
+            want = [(i, j) for i, r in enumerate(rows) for j in np.where(r > thr)[0]]
+            if [(int(x), int(y)) for x, y in zip(wr, wc)] != want:
+                self.bad('where_differs', 'where(a > %s) = %s, model %s' % (thr, list(zip(np.asarray(wr).tolist(), np.asarray(wc).tolist())), want))
+            txt = self.sut(repr, a) + self.sut(str, a)
+            if not isinstance(txt, str) or not txt:
+                self.bad('repr_empty', 'repr / str returned %r' % (txt,))
+            self.hist.append(('helpers', float(thr)))
+            self.ctx.hit('op_helpers')
         elif op == 'child_write':
             # a row selection is an array of its own: the caller writes into it, then into the parent; neither sees the other's write
             kind = t.draw(4)
@@ -499,9 +637,9 @@ class Machine:
             r[j] = v
             rows[i][j] = v
             self.ctx.hit('env_write_through')
-        if op not in ('binary',):
+        if op not in ('binary', 'compare', 'divlike', 'bitwise', 'reads2d', 'helpers'):
             self.mutations += 1
-        if op not in ('append', 'aug', 'binary', 'write_through', 'child_write'):
+        if op not in ('append', 'aug', 'binary', 'write_through', 'child_write', 'compare', 'divlike', 'bitwise', 'reads2d', 'writes2d', 'helpers'):
             self.ctx.hit('op_' + op)
         nl = [len(r) for r in self.rows]
         now_rect = len(set(nl)) == 1
